@@ -50,8 +50,8 @@ Proof. exact dict_as_found_does_not_conform. Qed.
 
    "mentioned" = [msg_ids] (every field of a node / buffer / bus id type of the grammar, nested
    completion messages included).  [known L k i] = i is -1 (the reference's placeholder for a
-   server-generated node id / unmap), or k = node and i = 0 (root) or 1 (this client's default
-   group), or (k, i) is in the ledger L.  The ledger starts as given and grows with every op by
+   server-generated node id / unmap), or k = node and i = 0 (root), or (k, i) is in the ledger L; the default groups
+   of the logins are in the ledger from the start (ledger0).  The ledger starts as given and grows with every op by
    [op_ids s o]: the ids the allocators returned in that op (oracle fields: node id, buffer block,
    bus block) and the ids the caller wrote himself (numeric targets, bufnum= / index=, basic_new ids,
    bus numbers passed to map / mapn, ids inside the completion / raw messages he supplied).  Ids are
@@ -62,9 +62,10 @@ Theorem ids_only_allocated : forall n ops L s,
   Inv L s -> wf_ops n s ops = true -> ids_in_ledger L s ops.
 Proof. exact run_ids_all. Qed.
 
-(* the initial state with the empty ledger satisfies the invariant *)
-Theorem initial_state_invariant : Inv [] st0.
-Proof. exact inv_st0. Qed.
+(* the state after login -- for ANY client id / number of logins: dg = this client's default group, dgs = the default
+   groups of all logins -- satisfies the invariant with the ledger that holds exactly those groups *)
+Theorem initial_state_invariant : forall dg dgs, Inv (ledger0 dg dgs) (st_init dg dgs).
+Proof. exact inv_init. Qed.
 
 (* ------------------------------------------------------------------------------------ *)
 (* Creating an object emits its creation command with the object's own id. *)
